@@ -14,7 +14,20 @@ EXN_NAMES = {'IndexError', 'KeyError', 'AttributeError', 'TypeError', 'ValueErro
              'NotImplementedError', 'RecursionError'}
 
 
+class RoundTripError(Exception):
+    """raised by the constructed-message commands when the composed bytes do not parse back to the composed values"""
+
+
+def parse_back(cls, composed):
+    try:
+        return cls.parse_exact_size(composed)
+    except Exception as e:  # pylint: disable=broad-except
+        raise RoundTripError('composed bytes are not accepted: %s' % type(e).__name__)
+
+
 def exn_name(e):
+    if isinstance(e, RoundTripError):
+        return 'RoundTripError'
     if isinstance(e, UnicodeError):
         return 'UnicodeError'
     if isinstance(e, struct.error):
@@ -93,6 +106,10 @@ def mk_dt(sec, mic):
 def c_ts(ms, w, *rest):
     c = ComposerBinary()
     v = None if rest[0] == 'none' else mk_dt(rest[0], rest[1])
+    if v is not None and len(rest) > 2:
+        # the same instant expressed in a zone with the given offset (minutes): the wire value must not change
+        import dateutil.tz
+        v = v.astimezone(dateutil.tz.tzoffset(None, int(rest[2]) * 60))
     c.compose_timestamp(v, milliseconds=(ms == '1'), item_size=int(w))
     return hx(c.composed_bytes)
 
@@ -264,6 +281,40 @@ def _version(code):
         if m.value.code == code:
             return TlsProtocolVersion(m)
     raise TypeError('not constructible: version %d' % code)
+
+
+def _ssl2_kinds(ciphers):
+    from cryptodatahub.tls.algorithm import SslCipherKind
+    out = []
+    for c in _zs(ciphers):
+        ms = [m for m in SslCipherKind if m.value.code == c]
+        if not ms:
+            raise TypeError('not constructible')
+        out.append(ms[0])
+    return out
+
+
+def ssl2_ch_enc(ciphers, sid, ch):
+    """compose from the field values; the composed bytes must parse back to exactly these values (the decode direction)"""
+    from cryptoparser.tls.subprotocol import SslHandshakeClientHello
+    kinds, s, c = _ssl2_kinds(ciphers), bytes.fromhex('' if sid == '-' else sid), bytes.fromhex('' if ch == '-' else ch)
+    b = bytes(SslHandshakeClientHello(kinds, s, c).compose())
+    back = parse_back(SslHandshakeClientHello, b)
+    if list(back.cipher_kinds) != kinds or bytes(back.session_id) != s or bytes(back.challenge) != c:
+        raise RoundTripError('parse does not recover the encoded values')
+    return hx(b)
+
+
+def ssl2_sh_enc(hit, ct, cert, ciphers, cid):
+    from cryptoparser.tls.subprotocol import SslHandshakeServerHello
+    kinds, ce, ci = _ssl2_kinds(ciphers), bytes.fromhex('' if cert == '-' else cert), bytes.fromhex('' if cid == '-' else cid)
+    if int(ct) != 1:
+        raise TypeError('not constructible')
+    b = bytes(SslHandshakeServerHello(ce, kinds, ci, bool(int(hit))).compose())
+    back = parse_back(SslHandshakeServerHello, b)
+    if list(back.cipher_kinds) != kinds or bytes(back.certificate) != ce or bytes(back.connection_id) != ci or back.session_id_hit != bool(int(hit)):
+        raise RoundTripError('parse does not recover the encoded values')
+    return hx(b)
 
 
 def ch_enc(ver, rnd, sid, suites, comps, exts):
@@ -449,9 +500,11 @@ def mysql_hs(ver, cid, a1, caps, cs, st, a2, pl):
         mysql.MySQLVersion.MYSQL_10, bytes.fromhex('' if ver == '-' else ver).decode('ascii'), int(cid), bytes.fromhex(a1), set(cl), csm[0], set(sl),
         None if a2 == '-' else bytes.fromhex(a2), None if pl == '_' else bytes.fromhex(pl).decode('ascii'))
     composed = bytes(msg.compose())
-    back = mysql.MySQLHandshakeV10.parse_exact_size(composed)
-    if set(back.capabilities) != set(cl) or set(back.states) != set(sl) or back.connection_id != int(cid):
-        raise TypeError('parse(compose(x)) differs from x')
+    back = parse_back(mysql.MySQLHandshakeV10, composed)
+    if (set(back.capabilities) != set(cl) or set(back.states) != set(sl) or back.connection_id != int(cid)
+            or bytes(back.auth_plugin_data_2 or b'') != bytes(msg.auth_plugin_data_2 or b'') or back.auth_plugin_name != msg.auth_plugin_name
+            or back.server_version != msg.server_version or bytes(back.auth_plugin_data) != bytes(msg.auth_plugin_data)):
+        raise RoundTripError('parse(compose(x)) differs from x')
     return hx(composed)
 
 
@@ -468,7 +521,8 @@ def ovpn_ctl(op, sess, acks, remote, pid, h):
     if int(op) != int(openvpn.OpenVpnPacketControlV1.get_op_code()):
         raise TypeError('not constructible')
     a = _zs(acks)
-    obj = openvpn.OpenVpnPacketControlV1(int(sess), a, int(remote) if a else None, int(pid), bytes.fromhex('' if h == '-' else h))
+    # without acknowledgements the remote session id is not on the wire whatever the object holds (None or, for odd values, a number)
+    obj = openvpn.OpenVpnPacketControlV1(int(sess), a, int(remote) if a or int(remote) % 2 else None, int(pid), bytes.fromhex('' if h == '-' else h))
     return hx(obj.compose())
 
 
@@ -636,8 +690,15 @@ def rrsig_enc(ty, alg, labels, ttl, ex, inc, kt, name, sig):
     from cryptodatahub.dnsrec.algorithm import DnsSecAlgorithm, DnsRrType
     from cryptoparser.dnsrec.record import DnsRecordRrsig, DnsNameUncompressed, DnsRrTypePrivate
     tys = [m for m in DnsRrType if m.value.code == int(ty)]
+
+    def zoned(t):
+        # RFC 4034 3.1.5 counts seconds since the epoch in UTC: the same instant spelled in another zone is the same wire
+        # value (records with an odd key tag are built from such spellings)
+        import dateutil.tz
+        v = mk_dt(t, 0)
+        return v.astimezone(dateutil.tz.tzoffset(None, (int(t) % 57 - 28) * 1800)) if int(kt) % 2 else v
     return hx(DnsRecordRrsig(tys[0] if tys else DnsRrTypePrivate(int(ty)), _dns_enum(DnsSecAlgorithm, int(alg)), int(labels), int(ttl),
-                             mk_dt(ex, 0), mk_dt(inc, 0), int(kt), DnsNameUncompressed(_labels(name)), bytes.fromhex('' if sig == '-' else sig)).compose())
+                             zoned(ex), zoned(inc), int(kt), DnsNameUncompressed(_labels(name)), bytes.fromhex('' if sig == '-' else sig)).compose())
 
 
 def dnskey_rsa_enc(flags, alg, e, m):
@@ -767,7 +828,7 @@ def reader_cmd(u, chunks):
 # ---- vector edit histories ---------------------------------------------------------------------------
 VEC_CLASSES = ['TlsSessionIdVector', 'TlsRenegotiatedConnection', 'TlsCipherSuiteVector', 'TlsCompressionMethodVector',
                'TlsCertificateStatusRequestResponderIdList', 'SshKexAlgorithmVector', 'TlsEllipticCurveVector',
-               'TlsClientCertificateTypeVector']
+               'TlsClientCertificateTypeVector', 'TlsDistinguishedNameVector']
 
 
 def vec_item(cls_name, tag, size):
@@ -787,6 +848,9 @@ def vec_item(cls_name, tag, size):
     if cls_name == 'TlsCertificateStatusRequestResponderIdList':
         from cryptoparser.tls.extension import TlsCertificateStatusRequestResponderId
         return TlsCertificateStatusRequestResponderId([tag % 256] * (size - 2)) if size >= 3 else None
+    if cls_name == 'TlsDistinguishedNameVector':
+        from cryptoparser.tls.subprotocol import TlsDistinguishedName
+        return TlsDistinguishedName([tag % 256] * (size - 2)) if size >= 3 else None
     if cls_name == 'SshKexAlgorithmVector':
         return chr(97 + tag % 26) + 'x' * (size - 1) if size >= 1 else None
     raise KeyError(cls_name)
@@ -1066,7 +1130,7 @@ COMMANDS = {
     'rsablob': blob_cmd(rsa_blob), 'dssblob': blob_cmd(dss_blob), 'edblob': blob_cmd(ed_blob),
     'keytag': keytag_cmd, 'dsenc': ds_enc, 'mxenc': mx_enc, 'nameenc': name_enc, 'txtenc': txt_enc, 'rrsigenc': rrsig_enc,
     'dnskeyrsaenc': dnskey_rsa_enc,
-    'chenc': ch_enc, 'chdec': ch_dec, 'ja3impl': ja3_cmd, 'shenc': sh_enc, 'certenc': cert_enc, 'shdenc': shd_enc,
+    'chenc': ch_enc, 'ssl2chenc': ssl2_ch_enc, 'ssl2shenc': ssl2_sh_enc, 'chdec': ch_dec, 'ja3impl': ja3_cmd, 'shenc': sh_enc, 'certenc': cert_enc, 'shdenc': shd_enc,
     'recenc': rec_enc, 'alertenc': alert_enc, 'ccsenc': ccs_enc, 'extenc': ext_enc,
     'pframe': p_frame, 'xframe': x_frame, 'mframe': m_frame, 'cframe': c_frame,
     'popq': p_opq, 'copq': c_opq,
